@@ -20,7 +20,7 @@ RULE = ("E1: every cell of incoming (type x code in {0.00, 0.01, 0.31, 2.05, 4.0
         "{pending, unknown} x source {peer, other port} x local address {unicast, ff02::fd, v4-mapped 224.0.1.187} x handler "
         "duration {0, D-e, D+e, 0.5 s} x No-Response {absent,0,2,8,16,26}) where the statement defines the reaction, all ordered "
         "pairs of a sub-table, cells behind the node's own unacknowledged CON (answered on time, separate response released by its ACK), the peer's message carrying the node's own "
-        "just-acknowledged message ID, 1-3 exchanges with the peer's other port while a CON to its first port is open, the node's own request going out on the token of the peer's request still in its handler, and outgoing multicast cells x tuning reliability preference; states = distinct (cell, reply multiset) pairs")
+        "just-acknowledged message ID, 1-3 exchanges with the peer's other port while a CON to its first port is open, the node's own request going out on the token of the peer's request still in its handler, the node as a forward proxy handing on the origin's piggy-backed response after 0-1.5 s, and outgoing multicast cells x tuning reliability preference; states = distinct (cell, reply multiset) pairs")
 ASSUMPTIONS = [
     "CON with reserved-class/signalling code: 'ignored' or RST both accepted (statement vs RFC 7252 4.2)",
     "ACK carrying a response for a pending token but a foreign message ID: delivery is a don't-care; nothing may be sent",
@@ -384,6 +384,71 @@ def run_role_reversal(res, dur, own_type):
         res.transitions += 2
         res.outcomes.add(core.digest(("rr", got)))
         res.signatures.add(core.digest(("rr", dur, int(own_type))))
+    finally:
+        w.dispose()
+
+
+ORIGIN = ("2001:db8::77", 5683)
+
+
+def run_proxy(res, delay, con):
+    """The node is a forward proxy: the response it sends to the client is one it received from the origin server (as a piggy-backed
+    ACK, `delay` seconds after the request).  Towards the client it is a response like any other: piggy-backed if it is there within
+    EMPTY_ACK_DELAY, else an empty ACK and a separate response with a fresh message ID - never an ACK under an ID of its own."""
+    from aiocoap.proxy.server import Proxy
+    w = World()
+    try:
+        class Origin(Peer):
+            def on_message(self, src, msg, dg):
+                if 1 <= msg[1] < 32:
+                    self.world.loop.call_later(delay, self.send, src, (rc.ACK, 69, msg[2], msg[3], [], b"from-origin"))
+
+        holder = {}
+
+        class To:
+            def apply_redirection(self, request):
+                request = request.copy()
+                request.remote = holder["node"].remote(ORIGIN)
+                return request
+
+        class P(Proxy):
+            interpret_block_options = False
+        node = w.add_context("node", *NODE)
+        holder["node"] = node
+        prx = P(node.ctx)
+        prx.add_redirector(To())
+        node.ctx.serversite = prx
+        w.add_peer(AutoAck("peer", *PEER))
+        w.add_peer(Origin("origin", *ORIGIN))
+        t0 = w.loop.time()
+        mid, token = 0x5BB0, b"\xC7"
+        w.inject(PEER, NODE, rc.encode((rc.CON if con else rc.NON, 1, mid, token, [(11, b"x")], b"")), local_ip=LOCALS["uni"])
+        end = t0 + delay + 1.0
+        while True:
+            for dg in list(w.pool):
+                w.deliver(dg)
+            tn = w.loop.next_timer()
+            if tn is None or tn > end:
+                break
+            w.loop.fire_next_timer()
+        case = {"proxy": [delay, con]}
+        res.evaluations += 1
+        res.traces += 1
+        replies = [(dg, rc.decode(dg.data, check_formats=False)) for dg in w.sent if dg.src == NODE and dg.dst == PEER]
+        got = classify(replies, [mid], [token], t0, with_time=True)
+        if con:
+            want = [("ACK", mid, 69, token, delay)] if delay < EAD else [("ACK", mid, "empty", None, EAD), ("CON", "fresh", 69, token, delay)]
+        else:
+            want = [("NON", "fresh", 69, token, delay)]
+        want = [tuple(e[:4]) + (round(e[4], 6),) for e in want]
+        if got != want:
+            res.violate(Violation("reaction-table", want, got, "proxy/server.py:Proxy.render", case, trace=w.trace[-20:], key="proxy/" + ("con" if con else "non")))
+        for msg, e in w.loop_exceptions():
+            res.violate(Violation("loop-exception", "none", core.exc_desc(e) if e else msg, core.site_of(e) if e else "loop", case, key="loop"))
+        res.states.add(core.digest(("proxy", delay, con, got)))
+        res.transitions += 2
+        res.outcomes.add(core.digest(("proxy", got)))
+        res.signatures.add(core.digest(("proxy", delay, con)))
     finally:
         w.dispose()
 
@@ -788,6 +853,9 @@ def job(arg):
         for dur in DUR:
             for own_type in (CON, NON):
                 run_role_reversal(res, dur, own_type)
+        for delay in (0.0, 0.05, 0.3, 1.5):
+            for con in (True, False):
+                run_proxy(res, delay, con)
         for dur in DUR:
             for gap in (0.0, 0.01, 0.05, 0.09, 0.11, 0.3, 0.6):
                 for nr in (None, 2):
@@ -872,6 +940,8 @@ def replay(case, scenario, seed):
         run_duplicate_in_window(res, *case["duplicate_in_window"])
     elif "multicast_given_up" in case:
         run_multicast_given_up(res, *case["multicast_given_up"])
+    elif "proxy" in case:
+        run_proxy(res, *case["proxy"])
     elif "role_reversal" in case:
         run_role_reversal(res, case["role_reversal"][0], CON if case["role_reversal"][1] == int(CON) else NON)
     elif "other_port" in case:
